@@ -11,6 +11,7 @@ import (
 	"html"
 	"os"
 	"path/filepath"
+	"sort"
 	"strings"
 	"time"
 
@@ -131,6 +132,7 @@ func scenarioViewer(c *hlib.RunCtx) *hlib.Violation {
 				}
 			}
 		}
+		sort.Strings(excluded) // map order must not reach the event log
 		sample = append(sample, fmt.Sprintf("%s: approved=%v excluded=%d", e.Name(), buildOK, len(excluded)))
 		s.Logf("file", "%s approved=%v excluded=%v", e.Name(), buildOK, excluded)
 	}
